@@ -419,6 +419,13 @@ def replay_failure(group, tree, scratch, res, tier, pid):
         for prof, fn, ran, tail in outs:
             verdict = "FAILS natively (reproduced)" if fn else ("passes natively (NOT reproduced)" if ran else "did not run")
             lines += ["### profile %s: %s" % (prof, verdict), "```", tail, "```", ""]
+    so = hspec.get("solver_only") or []
+    if not reproduced and so and all(any(x in c["description"] for x in so) for c in failed):
+        lines += ["", "Note: the failed checks are verification conditions placed in Kani function stubs "
+                  "(allocation bound). Kani does not apply function stubs during concrete playback, so "
+                  "the native run allocates for real instead of evaluating the condition; the violation "
+                  "is reported on the solver verdict (the concrete values above are the solver model)."]
+        reproduced = True
     if not reproduced and ub_only:
         lines += ["", "Note: the failed checks are pointer/validity checks that have no native symptom; "
                   "reported on the solver verdict alone (triage by reading)."]
